@@ -16,6 +16,14 @@ def classify_record(atoms, params=None):
     from matid.classification.classifier import Classifier
 
     params = dict(params or {})
+    ref_radii = params.get("radii", "covalent")
+    if isinstance(ref_radii, str) and ref_radii.startswith("table:"):
+        # a custom per-element table (indexed by atomic number, as the classifier documents); the reference uses per-atom radii
+        from ase.data import covalent_radii as _cov
+
+        table = float(ref_radii.split(":")[1]) * np.array(_cov)
+        params["radii"] = table
+        ref_radii = table[atoms.get_atomic_numbers()]
     rec = {"n": len(atoms), "error": "", "cls": "", "cls_again": "", "cls_hist": "", "untouched": True, "has_cell": False, "basis": [],
            "outliers": [], "region_known": False, "region": {"has": False, "nbasis": 0, "is2d": False, "nconn": 0}}
     min_cov = params.get("min_coverage", 0.5)
@@ -89,14 +97,14 @@ def classify_record(atoms, params=None):
         if w.get_pbc().any():
             w.wrap()
         rec["dim_wrapped"] = dim_enc(matid.geometry.get_dimensionality(w, params.get("cluster_threshold", 3.5),
-                                                                        radii=params.get("radii", "covalent")))
+                                                                        radii=ref_radii if isinstance(ref_radii, str) else np.array(ref_radii)))
     except Exception as e:
         rec["dim_wrapped"] = -7
         rec["dim_error"] = str(e)[:100]
     # independent network (brute-force image sums) of the wrapped structure, for small inputs: lets TLC confirm that the
     # dimensionality reference itself is the definition at the classifier's own threshold (TraceDim)
     try:
-        if len(w) <= 40 and params.get("radii", "covalent") == "covalent":
+        if len(w) <= 40 and isinstance(ref_radii, str) and ref_radii == "covalent":
             from ase.data import covalent_radii
 
             from .props.c09 import edge_list
